@@ -3,6 +3,7 @@ import P2PVerif.Lemmas.KeChan
 import P2PVerif.Lemmas.KeConv
 import P2PVerif.Model.KeTimed
 import P2PVerif.Lemmas.KeTimed
+import P2PVerif.Lemmas.KeTimedSoon
 /-! # C07 — channels establish, converge and keep working across rotation and restart
 Property theorems only, about the channel model (`Model/P2PKE.lean`) with time as an explicit input. -/
 namespace P2PVerif.C07
@@ -140,5 +141,16 @@ theorem pending_send_completes_fresh (kA kB : KeyId) (rj ka ra bo : Nat) (lt : I
             let B2 := ((B0.deliver lt hello 200 t0).1.deliver lt idn 400 t0).1
             A4.chan.cur.isSome ∧ A4.chan.waiting = 0 ∧ A4.rekeyAt = some (t0 + ra) ∧ B2.chan.cur.isSome :=
   P2PKE.pending_send_completes_fresh kA kB rj ka ra bo lt t0 hbo
+
+/-- ⊢ bounded waiting for action: in every reachable state — any interleaving, callbacks arbitrarily late — while
+    callers wait for a session, a timer that will act for them is due no later than one handshake backoff from
+    now: the rekey timer (its callback initiates), or the handshake timer with a prospective session (its callback
+    retransmits, or gives the session up and starts over). Moreover the handshake timer is never armed further than
+    one backoff ahead. With `stuck_handshake_is_given_up` this bounds how long a channel can sit on a handshake that
+    cannot complete: `handshakeAttempts` backoffs plus the lateness of the callbacks. -/
+theorem acts_within_one_backoff (key : KeyId) (accept : KeyId → Bool) (rj ka ra bo : Nat) (lt : IdLt) (ops : List TOp) :
+    let s := (TSt.mk (TChan.fresh key accept rj ka ra bo) 0).run lt ops
+    s.ActsSoon ∧ (∀ b, s.t.hsAt = some b → b ≤ s.now + s.t.backoff) :=
+  P2PKE.acts_within_one_backoff key accept rj ka ra bo lt ops
 
 end P2PVerif.C07
